@@ -510,7 +510,13 @@ def build_chain(specs, freeze=None, x=None, frozen_here=False, dead=None):
                 if skipped and dead is not None and spec_has(spec, x):
                     dead.append(fname)
             body = build_chain(inner, freeze, x, skipped, dead)
-            piece = body.bubble(func=FUNCS[fname], drawing_name=fname)
+            # the drawing name does not identify the function: by position the
+            # bubble gets the default name, its function's name or a shared one
+            if i % 3 == 0:
+                piece = body.bubble(func=FUNCS[fname])
+            else:
+                piece = body.bubble(func=FUNCS[fname],
+                                    drawing_name=fname if i % 3 == 1 else "f")
         d = piece if d is None else d >> piece
     return d
 
